@@ -66,6 +66,7 @@ struct Scenario {
    std::string type = "slha";       ///< input-type option used
    SrcKind src = SRC_STDIN;
    std::vector<std::string> pre_args, post_args; ///< extra argv elements before/after the input option
+   unsigned max_iter_knob = 0;      ///< iteration budget of the on-shell conversion (0 = shipped value); only ever lowered
    int env_mode = 0;                ///< simulated process environment, see simulated_env()
    int tilde_kind = 0;              ///< SRC_TILDE: which spelling
    bool materialise_file = false;   ///< write the document to <dir>/input.in even if the input option does not name it (raw command lines refer to it)
@@ -383,6 +384,10 @@ inline void apply_op(Scenario& s, const Corpus& corpus, const std::vector<std::s
       if (a == "<empty>") a = "";
       (op == "arg" ? s.post_args : s.pre_args).push_back(a);
       note_fault(s, "extra_argument");
+   } else if (op == "knob") {
+      // knob maxiter N: tuning knob of the program under test set by the simulator through the GM2CALC_VERIF hook in
+      // src/gm2calc.cpp.  Only values below the shipped one (1000): the program may only do less work than shipped.
+      if (t.size() > 2 && t[1] == "maxiter") { s.max_iter_knob = (unsigned)std::min<long long>(std::max<long long>(0, num(2)), 999); if (s.max_iter_knob) note_fault(s, "knob_iteration_budget_lowered"); }
    } else if (op == "env") {
       s.env_mode = (int)(((num(1) % N_ENV_MODES) + N_ENV_MODES) % N_ENV_MODES);
       if (s.env_mode) note_fault(s, "process_environment_" + std::string(s.env_mode == 1 ? "empty" : s.env_mode == 2 ? "empty_strings" : s.env_mode == 3 ? "long_values" : "odd_values"));
@@ -483,7 +488,8 @@ inline std::vector<std::string> gen_plan(const Corpus& corpus, uint64_t seed, st
    };
    auto env_op = [&]() -> std::string {
       switch (r.below(15)) {
-      case 13: return "env " + std::to_string(1 + r.below(N_ENV_MODES - 1));
+      case 13: if (r.chance(0.5)) { static const int k[] = {1, 1, 2, 3, 5, 10, 50, 200}; return "knob maxiter " + std::to_string(k[r.below(8)]); }
+               return "env " + std::to_string(1 + r.below(N_ENV_MODES - 1));
       case 14: return "src tilde " + std::to_string(r.below(4));
       case 12: return "rawarg " + std::to_string(r.below(N_ATOMS));
       case 10: { static const long lens[] = {64, 200, 219, 220, 255, 256, 257, 300, 511, 512, 1023, 1024, 4095, 4096, 4097, 20000, 65536};
